@@ -1,3 +1,5 @@
 """Bounded stand-ins: run-time contracts on the real code, small-scope drivers.  Never counted as proved."""
 REGISTRY = {
+    'C07': ['store_small_scope'],
+    'C08': ['store_small_scope'],
 }
